@@ -125,6 +125,77 @@ theorem quiescent_restored (L prog) (hd : Disjoint L prog) (Target : Loc → Pro
       have h2 := (I.mm u h1).2
       rw [(hq u).2] at h2; simp at h2
 
+/-- **quiescence, unconditional for the generator's program class**: every thread is either a builder running
+    `builderProg tg ops` — ANY sequence of builder operations (`mock` with Return / table / callback / callback calling
+    the origin placeholder, re-stub of an already mocked target, `chk`, intermediate `reset`s, double resets) followed by
+    `reset` and a final check (`builderProg_eq`: exactly what `ops ++ [reset, chk]` compiles to) — or a caller (only
+    `call` sections).  Then in EVERY interleaving in which all threads have finished, every mocked function (every
+    written location that is not an origin placeholder) is pristine and both locks are free.  The sequential hypothesis
+    of `quiescent_restored` is discharged by `Conc.seq_restored` (an invariant over the micro steps of a solo run). -/
+theorem quiescent_restored_builders (L prog) (hd : Disjoint L prog)
+    (hcls : ∀ t, (∃ tg ops, prog t = builderProg tg ops) ∨ (∀ sec ∈ prog t, ∃ f a, sec = Sec.call f a))
+    (σ : List Tid) (hq : ∀ t, done prog (run L prog σ start) t) :
+    (∀ t f, (∀ g, L.plh g ≠ f) → Writes L prog t f → (run L prog σ start).text f = .pristine) ∧
+    (run L prog σ start).lockP = none ∧ (run L prog σ start).lockM = none := by
+  refine quiescent_restored L prog hd (fun f => ∀ g, L.plh g ≠ f) ?_ σ hq
+  intro t n hdone f hT hw
+  rcases hcls t with ⟨tg, ops, hp⟩ | hc
+  · refine seq_restored (Target := fun f => ∀ g, L.plh g ≠ f) (T := (compileOps tg ops []).length) (fun f g h => h g) ?_ ?_ n hdone f hT hw
+    · intro i sec hi h; rw [hp] at h; exact builder_tail tg ops i sec hi h
+    · intro f hT ⟨sec, hs, hf⟩
+      have := builder_cover L tg ops f hT ⟨sec, hp ▸ hs, hf⟩
+      rw [hp]; exact this
+  · obtain ⟨sec, hs, hf⟩ := hw
+    obtain ⟨g, a, rfl⟩ := hc sec hs
+    simp [writesOf] at hf
+
+/-- the class is what the generator emits: a program ending in `reset ; chk` -/
+theorem builderProg_is_generated (tg : List Loc) (ops : List BOp) :
+    compileOps tg (ops ++ [BOp.reset, BOp.chk]) [] = builderProg tg ops := builderProg_eq tg ops
+
+/-! ### what the single `copy` step abstracts -/
+
+/-- byte view of a `WriteTo` that has stored its first `k` bytes -/
+def mixed (old new : List (BitVec 8)) (k : Nat) : List (BitVec 8) := new.take k ++ old.drop k
+
+/-- The model's `WStep.copy` replaces the content of a location in ONE step, i.e. it assumes that nobody can observe a
+    partially written entry: this is the statement it would need at byte level, -/
+def CopyIsAtomic (old new : List (BitVec 8)) : Prop := ∀ k, mixed old new k = old ∨ mixed old new k = new
+
+/-- and it is FALSE for the bytes goom writes (a Go prologue overwritten by `NOP; MOVABS RDX,imm64; JMP [RDX]`): after
+    one byte the entry is neither the original nor the jump.  So the absence of torn instruction fetch is NOT a theorem
+    here. -/
+theorem copy_is_not_atomic_at_byte_level :
+    ¬ CopyIsAtomic [0x49, 0x3b, 0x66, 0x10, 0x76, 0x2a, 0x55, 0x48, 0x89, 0xe5, 0x48, 0x83, 0xec]
+                   [0x90, 0x48, 0xba, 0x40, 0x1f, 0x4a, 0x00, 0x00, 0x00, 0x00, 0x00, 0xff, 0x22] := by
+  intro h
+  have := h 1
+  revert this
+  decide
+
+/-- What the model does guarantee about those intermediate byte states: whenever ANY thread is anywhere inside the
+    `WriteTo` script of a location (between taking and releasing `memoryAccessLock`, hence also between the first and the
+    last byte store), no thread's current `call` reads that location — neither as the called function nor as its
+    origin placeholder — provided targets are disjoint.  The threads of the model therefore never execute a torn entry;
+    what remains outside the model (and is only stress-tested) is hardware-level fetch: speculative/prefetched
+    instruction bytes of a neighbouring function on the same cache line, and cross-modifying-code visibility rules. -/
+theorem write_excludes_calls (L prog) (hd : Disjoint L prog) (σ : List Tid) (u : Tid)
+    (hu : ((run L prog σ start).th u).w.isSome = true) :
+    ∃ sec k wk, (prog u)[((run L prog σ start).th u).ip]? = some sec ∧ ((run L prog σ start).th u).cur = some k ∧
+      (bodyOf sec)[k]? = some (MI.write wk) ∧
+      ∀ t f a, (prog t)[((run L prog σ start).th t).ip]? = some (Sec.call f a) → f ≠ wloc L wk ∧ L.plh f ≠ wloc L wk := by
+  have I := LInv_run L prog σ start (LInv_init prog _)
+  obtain ⟨sec, k, wk, h1, h2, h3⟩ := I.wpos u hu
+  refine ⟨sec, k, wk, h1, h2, h3, ?_⟩
+  intro t f a ht
+  by_cases e : t = u
+  · subst e; rw [h1] at ht; injection ht with ht; subst ht; simp [bodyOf] at h3
+  · have hw : Writes L prog u (wloc L wk) := ⟨sec, List.mem_of_getElem? h1, body_write_loc L sec k wk h3⟩
+    have hm := hd t u (wloc L wk) e hw
+    constructor
+    · intro h; exact hm ⟨_, List.mem_of_getElem? ht, by simp [mentionsOf, h]⟩
+    · intro h; exact hm ⟨_, List.mem_of_getElem? ht, by simp [mentionsOf, h]⟩
+
 /-! ### the hypotheses are satisfiable by a non-trivial system -/
 
 def exLayout : Layout := { plh := fun f => f + 1000, pages := fun l => [l / 4, l / 4 + 1], orig := fun f a => a * 7 + f }
@@ -166,5 +237,11 @@ example : ((run exLayout exProg [0, 1, 0, 1, 0, 0, 0, 0, 1, 2, 0, 0, 0, 0, 0, 0,
 example : (solo exLayout exProg 0 40 start).text 1 = .pristine ∧ (solo exLayout exProg 1 40 start).text 2 = .pristine ∧
     done exProg (solo exLayout exProg 0 40 start) 0 ∧ (solo exLayout exProg 0 40 start).text 1001 = .reloc 1 := by
   refine ⟨by decide, by decide, ⟨by decide, by decide⟩, by decide⟩
+
+/-- the class hypothesis of `quiescent_restored_builders` is met by generated programs (re-stub, origin, table, double reset) -/
+example : builderProg [1, 2] [.mock 1 (.tab 5) false, .chk, .mock 2 (.cbo 7) true, .mock 1 (.cb 3) false, .reset, .reset, .mock 2 (.ret 4) false] =
+    [.replace 1 (.tab 5) false, .apply 1, .call 1 3, .call 2 3, .replace 2 (.cbo 7) true, .apply 2, .replace 1 (.cb 3) false, .apply 1,
+     .unpatch 1, .unpatch 2, .unpatch 1, .unpatch 2, .replace 2 (.ret 4) false, .apply 2, .unpatch 1, .unpatch 2, .call 1 3, .call 2 3] := by
+  decide
 
 end C11
